@@ -47,8 +47,10 @@ Proof.
   assert (Uniq : forall j y, nth_error (lcs (pl s)) j = Some y -> attached (l_pc y) = true -> j = i /\ y = x).
   { intros j y Hy Ay. unfold InvU in HU. rewrite Ee in HU. pose proof (n_att_one_unique _ HU j i y x Hy Hx Ay Ax). subst j. split; congruence. }
   destruct ev; cbn [step] in Hr; try (exfalso; apply Hr; reflexivity).
-  - (* EvHtlc: a response needs a lifecycle in the select! *)
-    exfalso. rewrite Ee in Hr.
+  - (* EvHtlc: the segment answers nobody *)
+    exfalso. rewrite Ee in Hr. apply Hr; reflexivity.
+  - (* EvPoll: a response needs a lifecycle in the select! *)
+    exfalso.
     destruct (find_select 0 (lcs (pl s))) as [[[j d] li]|] eqn:Hf; [|apply Hr; reflexivity].
     destruct (find_select_spec _ _ _ _ _ Hf) as (y & Hy & Hpy & _). rewrite Nat.sub_0_r in Hy.
     destruct (Uniq j y Hy ltac:(rewrite Hpy; reflexivity)) as (_ & ->). congruence.
